@@ -181,4 +181,151 @@ theorem keep_chain (S : Schema) (o : MergeOpts) : ∀ (chain : List DNode) (ldT 
           rw [h2]
           exact this
 
+/-! ## audit addition: a matched term node that `lyd_merge_sibling_r` does not overwrite stays as it is
+
+What the source may hold at the end of a chain of target nodes without the target node changing: nothing (`keep_chain`), or a term
+node the lookup matches but the merge does not copy — an instance of a leaf-list (its value is its identity), or a default leaf
+without `LYD_MERGE_DEFAULTS`. -/
+
+/-- the source node found at the end of the chain (if any) leaves the target node `y` alone -/
+def LeavesAlone (S : Schema) (o : MergeOpts) (y : DNode) : Option DNode → Prop
+  | none => True
+  | some x => x.isTerm = true ∧ (S.isKind y.sid .leaf && (o.defaults || !x.flags.dflt)) = false
+
+/-- the source sibling with `y0`'s identity is a term node that is matched and not copied; nothing else touches `y0` -/
+theorem keep_term_matched (S : Schema) (o : MergeOpts) (y0 x0 : DNode) (hy0 : lvlOk S y0 = true)
+    (hdy0 : S.isDupInst y0.sid = false) (hy0k : S.isKey y0.sid = false) (hx0t : x0.isTerm = true)
+    (hg : (S.isKind y0.sid .leaf && (o.defaults || !x0.flags.dflt)) = false) :
+    ∀ (l : List DNode) (ctx : List Ctx) (ld : Bool) (st : St), l.find? (matchP S y0) = some x0 →
+      AbsAt S y0 st.cur (fun t => t = y0) → (∀ x ∈ l, SrcOk S x) → pairwiseB (okPair S) l = true →
+      lvlOkL S st.cur = true → AbsAt S y0 (mergeKids S o ctx ld l st).cur (fun t => t = y0)
+  | [], _, _, _, hf, _, _, _, _ => by simp at hf
+  | c :: cs, ctx, ld, st, hf, ha, hs, hp, hc => by
+    rw [pairwiseB_cons] at hp
+    have hsc := hs c (by simp)
+    have hscs : ∀ x ∈ cs, SrcOk S x := fun x hx => hs x (by simp [hx])
+    simp only [mergeKids]
+    split
+    · rename_i hk
+      simp only [Bool.and_eq_true] at hk
+      have : matchP S y0 c = false := matchP_key_nonkey hy0k hk.2
+      simp only [List.find?_cons, this] at hf
+      exact keep_term_matched S o y0 x0 hy0 hdy0 hy0k hx0t hg cs ctx true st hf ha hscs hp.2 hc
+    · cases hm : matchP S y0 c with
+      | false =>
+        simp only [List.find?_cons, hm] at hf
+        exact keep_term_matched S o y0 x0 hy0 hdy0 hy0k hx0t hg cs ctx false _ hf
+          (absAt_step_other S o ctx y0 c st _ ha hm hy0 hdy0 hsc hc) hscs hp.2
+          (lvlOk_mergeNode S o c ctx st hsc.1 hsc.2.1 hc)
+      | true =>
+        simp only [List.find?_cons, hm, Option.some.injEq] at hf
+        subst hf
+        have hcs : c.sid = y0.sid := matchP_sid hm
+        have hdc : S.isDupInst c.sid = false := by rw [hcs]; exact hdy0
+        have ha0 := ha
+        obtain ⟨i, t, hfi, hgt, ht⟩ := ha
+        subst ht
+        have hfc : firstIdx (matchP S c) st.cur = some i := by
+          rw [← hfi]
+          apply firstIdx_congr
+          intro w hw
+          exact matchP_congr hy0 hsc.1 ((lvlOkL_iff S _).1 hc w hw) hdy0 hm
+        cases c with
+        | inner => simp [DNode.isTerm] at hx0t
+        | term ss sf sm sv =>
+          have hstep : mergeNode S o ctx (DNode.term ss sf sm sv) st = st := by
+            rw [mergeNode_term_matched S o ctx ss sf sm sv st i t hdc hfc hgt]
+            simp only [DNode.flags] at hg
+            simp [hg]
+          rw [hstep]
+          apply absAt_preserved S o _ _ hy0 hdy0 cs ctx false st ha0 ?_ hscs hc
+          intro x hx
+          have hcx := (okPair_not_match (hp.1 x hx) (noDupInst_sid (hscs x hx).2.2.2)).2
+          rw [← matchP_congr hy0 hsc.1 (hscs x hx).1 hdy0 hm]
+          exact hcx
+
+/-- **keep**, extended: a chain of target nodes ends, in the merged level, at the same node if the source does not contain the
+chain or holds at its end a term node that is matched without being copied (`LeavesAlone`) -/
+theorem keep_chain_alone (S : Schema) (o : MergeOpts) : ∀ (chain : List DNode) (ldT : Bool) (l : List DNode) (ctx : List Ctx)
+    (ld : Bool) (st : St) (y : DNode), lvlOkL S st.cur = true → pairwiseB (okPair S) st.cur = true →
+    ordAll S st.cur = true → (∀ x ∈ l, SrcOk S x) → pairwiseB (okPair S) l = true → IsChain S chain ldT st.cur →
+    (∀ c ∈ chain, S.isDupInst c.sid = false ∧ S.isKey c.sid = false) → chain.getLast? = some y →
+    LeavesAlone S o y (descend S chain l) → descend S chain (mergeKids S o ctx ld l st).cur = some y
+  | [], _, _, _, _, _, _, _, _, _, _, _, hc, _, _, _ => by simp [IsChain] at hc
+  | [y0], ldT, l, ctx, ld, st, y, hlv, hpw, _, hs, hpl, hc, hd, hl, hn => by
+    simp only [List.getLast?_singleton, Option.some.injEq] at hl
+    subst hl
+    simp only [IsChain] at hc
+    have hmem := procList_subset S ldT _ _ hc
+    obtain ⟨a, b, e⟩ := mem_split hmem
+    have hy0 : lvlOk S y0 = true := (lvlOkL_iff S _).1 hlv y0 hmem
+    have hd0 := hd y0 (by simp)
+    have hself : AbsAt S y0 st.cur (fun t => t = y0) := by
+      rw [e] at hpw ⊢; exact self_first S a y0 b hpw hd0.1
+    simp only [descend] at hn
+    cases hfx : l.find? (matchP S y0) with
+    | none =>
+      have hnone : ∀ x ∈ l, matchP S y0 x = false := by
+        intro x hx
+        have := List.find?_eq_none.1 hfx x hx
+        simpa using this
+      obtain ⟨t, h1, h2⟩ := find?_of_absAt (absAt_preserved S o y0 _ hy0 hd0.1 l ctx ld st hself hnone hs hlv)
+      simp [descend, h1, h2]
+    | some x0 =>
+      rw [hfx] at hn
+      obtain ⟨t, h1, h2⟩ := find?_of_absAt
+        (keep_term_matched S o y0 x0 hy0 hd0.1 hd0.2 hn.1 hn.2 l ctx ld st hfx hself hs hpl hlv)
+      simp [descend, h1, h2]
+  | y0 :: y1 :: ys, ldT, l, ctx, ld, st, y, hlv, hpw, hord, hs, hpl, hc, hd, hl, hn => by
+    simp only [IsChain] at hc
+    have hmem := procList_subset S ldT _ _ hc.1
+    obtain ⟨a, b, e⟩ := mem_split hmem
+    have hy0 : lvlOk S y0 = true := (lvlOkL_iff S _).1 hlv y0 hmem
+    have hoy : ordNode S y0 = true := (ordAll_iff S _).1 hord y0 hmem
+    have hd0 := hd y0 (by simp)
+    have hself : AbsAt S y0 st.cur (fun t => t = y0) := by
+      rw [e] at hpw ⊢; exact self_first S a y0 b hpw hd0.1
+    have hl' : (y1 :: ys).getLast? = some y := by simpa [List.getLast?_cons_cons] using hl
+    have hd' : ∀ c ∈ y1 :: ys, S.isDupInst c.sid = false ∧ S.isKey c.sid = false := fun c hc' => hd c (by simp [hc'])
+    cases y0 with
+    | term =>
+      have := hc.2
+      cases ys <;> simp [IsChain, procList, noKeys, DNode.kids] at this
+    | inner ts tf tm tk =>
+      simp only [ordNode, Bool.and_eq_true] at hoy
+      obtain ⟨_, _, hkl⟩ := lvlOk_kids hy0
+      simp only [descend] at hn
+      cases hfx : l.find? (matchP S (DNode.inner ts tf tm tk)) with
+      | none =>
+        have hnone : ∀ x ∈ l, matchP S (DNode.inner ts tf tm tk) x = false := by
+          intro x hx
+          have := List.find?_eq_none.1 hfx x hx
+          simpa using this
+        obtain ⟨t, h1, h2⟩ := find?_of_absAt
+          (absAt_preserved S o _ _ hy0 hd0.1 l ctx ld st hself hnone hs hlv)
+        subst h2
+        have := descend_self S (y1 :: ys) true tk y hoy.1 hoy.2 hc.2 (fun c hc' => (hd' c hc').1) hl'
+        simp only [descend, h1]
+        exact this
+      | some x0 =>
+        simp only [hfx] at hn
+        obtain ⟨ctx', anc', habs⟩ := keep_matched S o _ x0 hy0 hd0.1 rfl hd0.2 l ctx ld st hfx hself hs hpl hlv
+        obtain ⟨t, h1, h2⟩ := find?_of_absAt habs
+        have hx0mem : x0 ∈ l := List.mem_of_find?_eq_some hfx
+        have hx0 := hs x0 hx0mem
+        have hx0m : matchP S (DNode.inner ts tf tm tk) x0 = true := by
+          have := List.find?_some hfx
+          simpa using this
+        have hx0t : x0.isTerm = false := by
+          rw [sameShape hx0.1 hy0 (matchP_sid hx0m)]; rfl
+        cases x0 with
+        | term => simp [DNode.isTerm] at hx0t
+        | inner xs xf xm xk =>
+          obtain ⟨hkx, hpx⟩ := hx0.kids
+          have := keep_chain_alone S o (y1 :: ys) true xk ctx' true { cur := tk, cache := [], anc := anc' } y hkl hoy.1 hoy.2
+            hkx hpx hc.2 hd' hl' hn
+          simp only [descend, h1]
+          rw [h2]
+          exact this
+
 end LyModel.Merge
